@@ -71,6 +71,9 @@ def atom_values(t, tier='quick', limit=None):
         if name == 'DateTime':
             vals = values.datetimes(values.OFFSET_SUBSET if tier == 'thorough' else [0, 330, -210, -30, 840, -840],
                                     values.MICROS if tier == 'thorough' else [0, 5, 500000])
+            # one instant spelled with two offsets, one after the other (equal as values, different on the wire)
+            inst = _dt.datetime(2021, 3, 4, 12, 0, 0, tzinfo=tagged.tz(0))
+            vals = [('same-instant-utc', inst), ('same-instant-offset', inst.astimezone(tagged.tz(120)))] + list(vals)
             if validity.attrs_of(t).get('timezone') is False:
                 vals = [(l, v) for l, v in vals if v.tzinfo is None]
         else:
